@@ -10,7 +10,7 @@ import ast
 
 from ..core.absint import Intervals, INF
 from ..core.flow import call_name, calls_in, node_exprs, handler_catches_exception, enclosing_try, is_name
-from ..core.loader import AnalysisError, short, own_nodes, norm
+from ..core.loader import AnalysisError, short, own_nodes, norm, canon, function_locals
 from ..core.report import where
 
 TECHNIQUE = 'interval analysis with guard refinement over a hand-built CFG; dominance rules for failure containment and post-condition asserts'
@@ -30,15 +30,15 @@ ASSUMPTIONS = ["AssertionError raised inside SMSgreedy methods propagates to gre
 GREEDY = "greedy.block_generation"
 
 # Sites this technique cannot prove and for which no failing input was exhibited. Keyed by function + expression.
+# key: (function, emission text with the function's locals canonicalised) -> (number of such sites confirmed by reading, reason)
 TRIAGED_UNPROVEN = {
-    ("SMSgreedy.clean_stack", "'SWAP' + str(i)"):
-        "i is the first index with an unneeded element; nothing bounds it by 16 or excludes 0 syntactically "
-        "(needs the relational fact that position 0 is never dead here)",
-    ("SMSgreedy.compute_one_with_stack", "'SWAP' + str(i)"):
-        "multi-swap loop for i in range(1,pos+1): pos may be re-bound to an index beyond 16 when len(stack) >= 16",
-    ("SMSgreedy.compute_one_with_stack", "'SWAP' + str(pos)"):
-        "safe only because pos is re-bound under pos < _dup_stack_ini while the emission requires "
-        "_dup_stack_ini == 0 (relational fact outside the interval domain)",
+    ("SMSgreedy.clean_stack", "'SWAP' + str(L1)"):
+        (1, "the index is the first position with an unneeded element; nothing bounds it by 16 or excludes 0 syntactically "
+            "(needs the relational fact that position 0 is never dead here)"),
+    ("SMSgreedy.compute_one_with_stack", "'SWAP' + str(L1)"):
+        (2, "(a) multi-swap loop `for i in range(1, pos+1)`: pos may be re-bound to an index beyond 16 when len(stack) >= 16; (b) `'SWAP' + str(pos)` is safe "
+            "only because pos is re-bound under pos < _dup_stack_ini while the emission requires _dup_stack_ini == 0 (relational fact outside the "
+            "interval domain)"),
 }
 
 
@@ -100,10 +100,13 @@ def rule_a(ctx, out):
             continue
         out.ok(rec)
     reported = set()
+    seen_texts = {}
     for site, rec, f, n in unproven:
-        if site in TRIAGED_UNPROVEN:
+        csite = (site[0], canon(site[1], function_locals(f.node)))
+        seen_texts.setdefault(csite, set()).add(site[1])
+        if csite in TRIAGED_UNPROVEN and len(seen_texts[csite]) <= TRIAGED_UNPROVEN[csite][0]:
             if site not in reported:
-                out.unproven.append({"site": list(site), "interval": rec["index_interval"], "reason": TRIAGED_UNPROVEN[site]})
+                out.unproven.append({"site": list(site), "interval": rec["index_interval"], "reason": TRIAGED_UNPROVEN[csite][1]})
                 out.instances += 1
                 out.satisfied += 1
             reported.add(site)
@@ -265,6 +268,16 @@ def _standalone_rule(g, cfg, call_node, err, ids, out):
         out.bad("greedy_standalone:outcome-ignores-error", "optimization outcome is not derived from the error flag", where(g, call_node.ast))
 
 
+def _operand_lists(g):
+    """locals of g that hold an operation's operand list: bound (= or +=) from an expression reading <record>['inpt_sk']"""
+    names = set()
+    for n in own_nodes(g.node):
+        tgt = n.targets if isinstance(n, ast.Assign) else [n.target] if isinstance(n, ast.AugAssign) else []
+        if tgt and any(isinstance(x, ast.Subscript) and isinstance(x.slice, ast.Constant) and x.slice.value == "inpt_sk" for x in ast.walk(n.value)):
+            names |= {t.id for t in tgt if isinstance(t, ast.Name)}
+    return names
+
+
 def rule_c(ctx, out):
     f = ctx.func(f"{GREEDY}.SMSgreedy.compute")
     cfg = ctx.cfg(f)
@@ -305,7 +318,7 @@ def rule_c(ctx, out):
             continue
         for n in own_nodes(g.node):
             if isinstance(n, ast.Assert) and isinstance(n.test, ast.Compare) and isinstance(n.test.left, ast.Subscript) \
-                    and norm(n.test.left.value) == "inpts" and isinstance(n.test.comparators[0], ast.Subscript) \
+                    and norm(n.test.left.value) in _operand_lists(g) and isinstance(n.test.comparators[0], ast.Subscript) \
                     and isinstance(n.test.ops[0], ast.Eq):
                 sites += 1
                 out.ok({"function": g.qual, "assert": short(n)})
@@ -314,13 +327,15 @@ def rule_c(ctx, out):
     for g in ctx.p.funcs_in(GREEDY):
         if g.cls is None or g.cls.name != "SMSgreedy":
             continue
-        binds_inpts = [n for n in own_nodes(g.node) if isinstance(n, ast.Assign) and any(is_name(t, "inpts") for t in n.targets)]
+        opl = _operand_lists(g)
+        binds_inpts = sorted(opl)
         emits_id = [n for n in own_nodes(g.node) if isinstance(n, (ast.AugAssign, ast.Assign)) and
                     isinstance(getattr(n, "value", None), ast.List) and any(
                         isinstance(e, ast.Subscript) and isinstance(e.slice, ast.Constant) and e.slice.value == "id"
                         for e in n.value.elts)]
         if binds_inpts and emits_id:
-            has = any(isinstance(n, ast.Assert) and "inpts[" in norm(n.test) and "==" in norm(n.test) for n in own_nodes(g.node))
+            has = any(isinstance(n, ast.Assert) and isinstance(n.test, ast.Compare) and isinstance(n.test.ops[0], ast.Eq)
+                      and any(isinstance(x, ast.Subscript) and isinstance(x.value, ast.Name) and x.value.id in opl for x in ast.walk(n.test)) for n in own_nodes(g.node))
             if has:
                 out.ok({"function": g.qual, "obligation": "operation emitted after operand-position assert"})
             else:
@@ -383,7 +398,9 @@ def rule_d(ctx, out):
                         seq = getattr(parent_body, fld)
                 later = seq[seq.index(st) + 1:] if st in seq else []
                 second = [x for x in later if isinstance(x, ast.Expr) and isinstance(x.value, ast.Call) and call_name(x.value) == "reverse"]
-                asserts = [x for x in ast.walk(ast.Module(body=later, type_ignores=[])) if isinstance(x, ast.Assert) and "inpts[" in norm(x.test)]
+                opl_ = _operand_lists(g)
+                asserts = [x for x in ast.walk(ast.Module(body=later, type_ignores=[])) if isinstance(x, ast.Assert)
+                           and any(isinstance(y, ast.Subscript) and isinstance(y.value, ast.Name) and y.value.id in opl_ for y in ast.walk(x.test))]
                 if body_ok and len(second) == 1 and asserts:
                     out.ok({"function": g.qual, "idiom": "conditional reverse / compute / reverse / assert positions"})
                 else:
@@ -500,7 +517,8 @@ def rule_g(ctx, out):
     must follow a pending store is emitted before it."""
     f = ctx.func(f"{GREEDY}.SMSgreedy.compute")
     cfg = ctx.cfg(f)
-    clears = [n for n in own_nodes(f.node) if isinstance(n, ast.Assign) and len(n.targets) == 1 and is_name(n.targets[0], "final_no_store")
+    PENDING, DEFERRED = f.params[1], f.params[2]        # compute(self, instr, final_no_store, ...)
+    clears = [n for n in own_nodes(f.node) if isinstance(n, ast.Assign) and len(n.targets) == 1 and is_name(n.targets[0], DEFERRED)
               and isinstance(n.value, ast.List) and not n.value.elts]
     if len(clears) < 2:
         raise AnalysisError(f"SMSgreedy.compute: only {len(clears)} `final_no_store = []` found")
@@ -508,18 +526,23 @@ def rule_g(ctx, out):
         node = cfg.stmt_node(c)
         ok = None
         for t in cfg.nodes:
-            if t.kind == "test" and norm(t.ast).replace(" ", "") in ("len(instr)==0", "instr==[]", "notinstr") and node is not None and cfg.edge_dominated_by_branch(node, t, "T"):
+            if t.kind == "test" and norm(t.ast).replace(" ", "") in (f"len({PENDING})==0", f"{PENDING}==[]", f"not{PENDING}") and node is not None and cfg.edge_dominated_by_branch(node, t, "T"):
                 ok = f"under `{norm(t.ast)}`"
         par = getattr(c, "_parent", None)
         for fld in ("body", "orelse"):
             seq = getattr(par, fld, None)
             if isinstance(seq, list) and c in seq:
-                if any(isinstance(x, ast.Assign) and is_name(x.targets[0], "p") and norm(x.value).replace(" ", "") == "len(instr)" for x in seq):
+                flush_bounds = {x.targets[0].id for x in seq if isinstance(x, ast.Assign) and isinstance(x.targets[0], ast.Name)
+                                and norm(x.value).replace(" ", "") == f"len({PENDING})"}
+                # ... and that bound is what the pending list is cut at afterwards:  instr = instr[p:]
+                cut = any(isinstance(y, ast.Assign) and is_name(y.targets[0], PENDING) and isinstance(y.value, ast.Subscript) and isinstance(y.value.slice, ast.Slice)
+                          and isinstance(y.value.slice.lower, ast.Name) and y.value.slice.lower.id in flush_bounds for y in own_nodes(f.node))
+                if flush_bounds and cut:
                     ok = ok or "together with `p = len(instr)` (all pending operations are flushed next)"
         if ok:
             out.ok({"function": "SMSgreedy.compute", "deferred_loads_released": ok})
         else:
-            out.bad(f"deferred-loads-released-early:compute:line-shape:{norm(getattr(par, 'test', par))[:40] if par is not None else ''}",
+            out.bad(f"deferred-loads-released-early:compute:{canon(norm(getattr(par, 'test', par))[:40], function_locals(f.node)) if par is not None else ''}",
                     "SMSgreedy.compute empties final_no_store at a point where memory operations may still be pending (`instr` not known to be empty): "
                     "a load ordered after a pending store can then be emitted first", where(f, c))
 
